@@ -22,6 +22,7 @@ import (
 //   polling-chunked : a hand-made POST without Content-Length (chunked transfer encoding)
 //   polling-lying   : a hand-made POST whose Content-Length is within the limit (HTTP then reads exactly that much)
 //   websocket       : the real WebSocket client
+//   websocket-upgraded : the real client, starting on long-polling and upgraded to WebSocket before the message is sent
 // and, outbound, server -> client messages within the announced maxPayload on both transports.
 // The size is the size on the wire: POST body bytes / WebSocket message bytes.
 
@@ -59,12 +60,12 @@ func TestLimits(t *testing.T) {
 					sizes = append(sizes, int(2*eff), int(eff+100000), 65535, 65536, 65537)
 				}
 			}
-			for _, carriage := range []string{"polling-cl", "polling-chunked", "websocket"} {
+			for _, carriage := range []string{"polling-cl", "polling-chunked", "websocket", "websocket-upgraded"} {
 				for _, n := range sizes {
 					limitInbound(t, h, l.name, l.max, l.disabled, eff, carriage, n)
 				}
 			}
-			for _, tr := range []string{"polling", "websocket"} {
+			for _, tr := range []string{"polling", "websocket", "upgraded"} {
 				for _, n := range sizes {
 					if l.disabled || int64(n) <= eff {
 						limitOutbound(t, h, l.name, l.max, l.disabled, tr, n)
@@ -95,8 +96,12 @@ func limitServer(max int64, disabled bool, onPacket func(...*eioparser.Packet), 
 }
 
 func limitClientConfig(nw *memNet, tr string) *eio.ClientConfig {
+	trs := []string{tr}
+	if tr == "upgraded" {
+		trs = []string{"polling", "websocket"} // starts on long-polling and upgrades; the message is sent after the upgrade
+	}
 	return &eio.ClientConfig{
-		Transports:    []string{tr},
+		Transports:    trs,
 		HTTPTransport: &http.Transport{DialContext: nw.Dial, DisableCompression: true},
 		WebSocketDialOptions: &websocket.DialOptions{
 			HTTPClient:      &http.Client{Transport: &http.Transport{DialContext: nw.Dial, DisableCompression: true}},
@@ -112,6 +117,7 @@ func limitInbound(t *testing.T, h *H, lname string, max int64, disabled bool, ef
 	delivered, deliveredLen := 0, 0
 	srvClosed := ""
 	status := 0
+	upgradeFailed := false
 	var hsMax int64 = -1
 	synctest.Test(t, func(t *testing.T) {
 		nw, srv, hs, _ := limitServer(max, disabled, func(ps ...*eioparser.Packet) {
@@ -126,16 +132,19 @@ func limitInbound(t *testing.T, h *H, lname string, max int64, disabled bool, ef
 		}, func(r eio.Reason, err error) { mu.Lock(); srvClosed = string(r); mu.Unlock() })
 		data := bytes.Repeat([]byte("x"), n-1) // text MESSAGE: type byte + data = n bytes on the wire
 		switch carriage {
-		case "polling-cl", "websocket":
-			tr := "polling"
-			if carriage == "websocket" {
-				tr = "websocket"
-			}
+		case "polling-cl", "websocket", "websocket-upgraded":
+			tr := map[string]string{"polling-cl": "polling", "websocket": "websocket", "websocket-upgraded": "upgraded"}[carriage]
 			cli, err := eio.Dial("http://mem/engine.io/", &eio.Callbacks{}, limitClientConfig(nw, tr))
 			if err != nil {
 				t.Fatal(err)
 			}
 			time.Sleep(100 * time.Millisecond)
+			if tr == "upgraded" {
+				time.Sleep(2 * time.Second)
+				if cli.TransportName() != "websocket" {
+					upgradeFailed = true
+				}
+			}
 			cli.Send(&eioparser.Packet{Type: eioparser.PacketTypeMessage, Data: data})
 			time.Sleep(5 * time.Second)
 			cli.Close()
@@ -204,8 +213,11 @@ func limitInbound(t *testing.T, h *H, lname string, max int64, disabled bool, ef
 	if disabled {
 		lim = 0
 	}
+	if upgradeFailed {
+		h.Violation("C13", "harness: the connection did not upgrade to websocket", desc, "")
+	}
 	switch carriage {
-	case "websocket":
+	case "websocket", "websocket-upgraded":
 		h.Case(fmt.Sprintf("lim ws limit=%d actual=%d", lim, n), impl)
 	case "polling-cl":
 		h.Case(fmt.Sprintf("lim post limit=%d declared=%d actual=%d", lim, n, n), impl)
@@ -240,6 +252,9 @@ func limitOutbound(t *testing.T, h *H, lname string, max int64, disabled bool, t
 		}
 		s := <-socks
 		time.Sleep(100 * time.Millisecond)
+		if tr == "upgraded" {
+			time.Sleep(2 * time.Second)
+		}
 		s.Send(&eioparser.Packet{Type: eioparser.PacketTypeMessage, Data: bytes.Repeat([]byte("y"), n-1)})
 		time.Sleep(5 * time.Second)
 		mu.Lock()
